@@ -34,9 +34,18 @@ func (m *MovingMax[T]) Compute(c <-chan T) <-chan T {
 	cs[1] = helper.Shift(cs[1], m.Period, 0)
 
 	bst := helper.NewBst[T]()
+	filled := 0
 
 	maxs := helper.Operate(cs[0], cs[1], func(c, b T) T {
 		bst.Insert(c)
+
+		// The first Period values of the shifted stream are fill values,
+		// not members of the window, so there is nothing to remove yet.
+		if filled < m.Period {
+			filled++
+			return bst.Max()
+		}
+
 		bst.Remove(b)
 		return bst.Max()
 	})
